@@ -130,26 +130,29 @@ class Ord(Tok):
     a parameter strictly between two knots at a half-integer rank.  Code that touches these values only through comparisons is
     decided exactly for *every* real assignment with this order type.  Affine combinations of two ADJACENT distinct values
     (a + (b - a) / 2) stay inside their interval in every realisation, so they get the corresponding intermediate rank."""
-    __slots__ = ('rank',)
+    __slots__ = ('rank', 'off')
 
-    def __init__(self, rank):
+    def __init__(self, rank, off=0.0):
         Tok.__init__(self, 'DEF')
         self.rank = rank
+        # an explicit small number added to (subtracted from) the value by the interpreted code, e.g. a tolerance: it is far below the
+        # distance of two distinct ranks and decides the order of two values of the same rank
+        self.off = off
 
     def __repr__(self):
-        return 'Ord(%s)' % self.rank
+        return 'Ord(%s)' % self.rank if not self.off else 'Ord(%s%+g)' % (self.rank, self.off)
 
     def __eq__(self, other):
-        return isinstance(other, Ord) and other.rank == self.rank
+        return isinstance(other, Ord) and other.rank == self.rank and other.off == self.off
 
     def __ne__(self, other):
         return not self.__eq__(other)
 
     def __hash__(self):
-        return hash(('Ord', self.rank))
+        return hash(('Ord', self.rank, self.off))
 
     def __lt__(self, other):
-        return self.rank < other.rank
+        return (self.rank, self.off) < (other.rank, other.off)
 
 
 NEAR = 1e-3
@@ -159,18 +162,19 @@ class Gap(Tok):
     """difference of two ordered values: only its sign and whether it is zero are meaningful (mag is the rank difference, used to place
     affine combinations inside an interval).  A non-zero gap is assumed to exceed every tolerance it is compared with (distinct knots
     differ by more than the tolerances) - stated as an assumption in the evidence."""
-    __slots__ = ('mag',)
+    __slots__ = ('mag', 'off')
 
-    def __init__(self, mag):
+    def __init__(self, mag, off=0.0):
         Tok.__init__(self, 'DEF')
         self.mag = mag
+        self.off = off          # explicit small numbers carried by the operands (see Ord.off)
 
     @property
     def sign(self):
         return (self.mag > 0) - (self.mag < 0)
 
     def __repr__(self):
-        return 'Gap(%+g)' % self.mag
+        return 'Gap(%+g)' % self.mag if not self.off else 'Gap(%+g%+g)' % (self.mag, self.off)
 
 
 def order_compare(l, r, op):
@@ -180,7 +184,12 @@ def order_compare(l, r, op):
     if type(op) not in ops:
         return None
     if isinstance(l, Ord) and isinstance(r, Ord):
-        return ops[type(op)](l.rank, r.rank)
+        if not l.off and not r.off:
+            return ops[type(op)](l.rank, r.rank)
+        d = l.rank - r.rank
+        if abs(d) >= NEAR:
+            return ops[type(op)](l.rank, r.rank)             # distinct ranks are further apart than any explicit small number
+        return ops[type(op)](((d > 0) - (d < 0)) * 10 ** -12 + l.off - r.off, 0.0)
     # an order token stands for a finite real: it lies strictly between -inf and +inf
     import math as _m
     if isinstance(l, Ord) and isinstance(r, float) and _m.isinf(r):
@@ -211,7 +220,7 @@ def order_compare(l, r, op):
     # gap vs a (small, positive) tolerance or zero: a non-zero gap exceeds it - unless the two values are *near* each other (ranks that
     # differ by less than NEAR stand for values that differ by round-off only, i.e. by less than every tolerance)
     def gapval(g):
-        return g.sign * (10 ** -12 if 0 < abs(g.mag) < NEAR else 10 ** 9)
+        return g.sign * (10 ** -12 if 0 < abs(g.mag) < NEAR else 10 ** 9) + g.off
     if isinstance(l, Gap) and isinstance(r, (int, float)) and not isinstance(r, bool):
         return ops[type(op)](gapval(l), r)
     if isinstance(r, Gap) and isinstance(l, (int, float)) and not isinstance(l, bool):
@@ -632,17 +641,24 @@ class SK(object):
             # the difference of two equal knots: a division by it is a division by zero for every knot vector of this order type
             raise Raised('ZeroDivisionError', 'division by the difference of two equal knots', node)
         if isinstance(a, Ord) and isinstance(b, Ord) and op is o.sub:
-            return Gap(a.rank - b.rank)
+            return Gap(a.rank - b.rank, a.off - b.off)
+        small = lambda x: isinstance(x, (int, float)) and not isinstance(x, bool) and 0 < abs(x) < NEAR
+        if isinstance(a, Ord) and small(b) and op in (o.add, o.sub):
+            return Ord(a.rank, op(a.off, float(b)))          # a tolerance added to an ordered value
+        if isinstance(b, Ord) and small(a) and op is o.add:
+            return Ord(b.rank, b.off + float(a))
+        if isinstance(a, Gap) and small(b) and op in (o.add, o.sub):
+            return Gap(a.mag, op(a.off, float(b)))
         if isinstance(a, Gap) and isinstance(b, (int, float)) and not isinstance(b, bool) and (op is o.mul or (op is o.truediv and b != 0)):
-            return Gap(op(a.mag, float(b)))
+            return Gap(op(a.mag, float(b)), op(a.off, float(b)))
         if isinstance(b, Gap) and isinstance(a, (int, float)) and not isinstance(a, bool) and op is o.mul:
-            return Gap(a * b.mag)
+            return Gap(a * b.mag, a * b.off)
         if isinstance(a, Ord) and isinstance(b, Gap) and op in (o.add, o.sub):
-            return Ord(op(a.rank, b.mag))
+            return Ord(op(a.rank, b.mag), op(a.off, b.off))
         if isinstance(a, Gap) and isinstance(b, Ord) and op is o.add:
-            return Ord(b.rank + a.mag)
+            return Ord(b.rank + a.mag, b.off + a.off)
         if isinstance(a, Gap) and isinstance(b, Gap) and op in (o.add, o.sub):
-            return Gap(op(a.mag, b.mag))
+            return Gap(op(a.mag, b.mag), op(a.off, b.off))
         if isinstance(a, Sym) or isinstance(b, Sym):
             num = lambda x: isinstance(x, (int, float, Fraction)) and not isinstance(x, bool)
             lit = lambda x: x.val if isinstance(x, Tok) and x.kind == 'PH0' and num(x.val) else x      # a literal initial fill is its number
@@ -1352,7 +1368,7 @@ BUILTINS = {
     'range': Py(lambda sk, n, *a: list(range(*a)), 'range'), 'len': Py(lambda sk, n, x: _len(sk, n, x), 'len'),
     'min': Py(_minmax(min), 'min'), 'max': Py(_minmax(max), 'max'),
     'int': Py(lambda sk, n, x=0: _int(sk, n, x), 'int'), 'float': Py(_float, 'float'),
-    'abs': Py(lambda sk, n, x: (Gap(abs(x.mag)) if isinstance(x, Gap) else DEF()) if isinstance(x, Tok) else abs(x), 'abs'), 'round': Py(_round, 'round'),
+    'abs': Py(lambda sk, n, x: ((Gap(abs(x.mag), x.off * x.sign) if x.mag else Gap(0, abs(x.off))) if isinstance(x, Gap) else DEF()) if isinstance(x, Tok) else abs(x), 'abs'), 'round': Py(_round, 'round'),
     'zip': Py(lambda sk, n, *a: list(zip(*[sk.iterate(x, n) for x in a])), 'zip'),
     'enumerate': Py(lambda sk, n, x, *s: list(enumerate(sk.iterate(x, n), *s)), 'enumerate'),
     'isinstance': Py(_isinst, 'isinstance'), 'list': Py(lambda sk, n, *a: list(*a), 'list'), 'tuple': Py(lambda sk, n, *a: tuple(*a), 'tuple'),
